@@ -1576,6 +1576,11 @@ class Symex:
                 r = self.hooks[hk](self, [recv] + list(args), kw)
                 if r is not NotImplemented:
                     return r
+            if self.attr_hook is not None:
+                # the attribute model of a term also resolves its methods (a callable attribute)
+                r = self.attr_hook(self, recv, name, node)
+                if r is not NotImplemented:
+                    return self.call_value(r, args, kw, node)
             return self.opaque_mcall(recv, name, args, kw)
         if isinstance(recv, Fraction) or is_num(recv):
             if name == "__ceil__":
